@@ -585,7 +585,7 @@ fn gen_c10(rng: &mut Rng, tier: Tier, index: u64) -> Case {
             if r < 70 {
                 let dir = if (fam || run) && rng.chance(0.8) { fam_dir } else { pick_dir(rng) };
                 ops.push(Op::Plan { planner, len, dir, via: rng.chance(0.3), slot });
-                ops.push(checked_call(rng, slot, 3));
+                ops.push(checked_call(rng, slot, 6));
                 slot += 1;
             } else if r < 88 {
                 ops.push(Op::RoundTrip { planner, len, first: pick_dir(rng), entry: *rng.pick(&ENTRIES), input: InputSpec { seed: rng.next(), kind: InputKind::Dense } });
@@ -594,14 +594,14 @@ fn gen_c10(rng: &mut Rng, tier: Tier, index: u64) -> Case {
                 if slot > 0 {
                     // transforms stay valid after the planner is dropped
                     let s = rng.below(slot as u64) as u16;
-                    ops.push(checked_call(rng, s, 2));
+                    ops.push(checked_call(rng, s, 5));
                 }
             }
         }
         // use the earlier transforms again at the end (after other threads' requests and drops)
         for s in 0..slot {
             if rng.chance(0.5) {
-                ops.push(checked_call(rng, s, 2));
+                ops.push(checked_call(rng, s, 5));
             }
         }
         case.threads.push(ops);
@@ -673,7 +673,7 @@ fn gen_c13(rng: &mut Rng, tier: Tier, index: u64) -> Case {
             ops.push(Op::Plan { planner: 0, len: n as usize, dir, via: n % 2 == 1, slot });
             let s = InstRef::Local(slot);
             ops.push(Op::Call { inst: s, entry: ENTRIES[(n % 4) as usize], k: 1, input: InputSpec { seed: rng.next(), kind: InputKind::Impulse(rng.below(1 << 16) as u32) }, scratch_extra: 0, scratch_fill: Fill::Zero, out_fill: Fill::Zero, place: PLACES[(n % 4) as usize], dft_ref: true });
-            ops.push(Op::Call { inst: s, entry: ENTRIES[((n + 1) % 4) as usize], k: 1 + (n % 3) as u8, input: InputSpec { seed: rng.next(), kind: InputKind::Dense }, scratch_extra: 0, scratch_fill: Fill::Zero, out_fill: Fill::Zero, place: PLACES[((n + 2) % 4) as usize], dft_ref: true });
+            ops.push(Op::Call { inst: s, entry: ENTRIES[((n + 1) % 4) as usize], k: 1 + ((n + walk) % 6) as u8, input: InputSpec { seed: rng.next(), kind: InputKind::Dense }, scratch_extra: 0, scratch_fill: Fill::Zero, out_fill: Fill::Zero, place: PLACES[((n + 2) % 4) as usize], dft_ref: true });
             if n < 64 {
                 // the fixed-size kernels of every level (and their 2x-unrolled chunk loops): the other entry points too, 4-7 chunks
                 for e in 2..4u64 {
@@ -700,7 +700,7 @@ fn gen_c13(rng: &mut Rng, tier: Tier, index: u64) -> Case {
                 _ => 3,
             };
             ops.push(Op::Plan { planner, len, dir: pick_dir(rng), via: rng.chance(0.3), slot });
-            ops.push(checked_call(rng, slot, 3));
+            ops.push(checked_call(rng, slot, 8));
             if rng.chance(0.3) {
                 ops.push(Op::BadCall { inst: InstRef::Local(slot), entry: *rng.pick(&ENTRIES), fault: pick_fault(rng), place: pick_place(rng), seed: rng.next() });
             }
